@@ -205,10 +205,25 @@ func (p *provider) Stop(ctx context.Context) error {
 }
 
 func (p *provider) filter(obj any) bool {
-	// should never be of a different type. ok if panics
-	rs := obj.(*v1alpha4.RuleSet) // nolint: forcetypeassert
+	rs, ok := toRuleSet(obj)
+	if !ok {
+		return false
+	}
 
 	return rs.Spec.AuthClassName == p.ac
+}
+
+// toRuleSet returns the rule set from the object delivered by the informer. If the deletion of an
+// object has been missed (e.g. due to a connection loss), the informer delivers a tombstone with the
+// last known state of the object instead of the object itself.
+func toRuleSet(obj any) (*v1alpha4.RuleSet, bool) {
+	if tombstone, ok := obj.(cache.DeletedFinalStateUnknown); ok {
+		obj = tombstone.Obj
+	}
+
+	rs, ok := obj.(*v1alpha4.RuleSet)
+
+	return rs, ok
 }
 
 func (p *provider) addRuleSet(obj any) {
@@ -297,8 +312,11 @@ func (p *provider) deleteRuleSet(obj any) {
 
 	p.l.Info().Msg("Rule set deletion received")
 
-	// should never be of a different type. ok if panics
-	rs := obj.(*v1alpha4.RuleSet) // nolint: forcetypeassert
+	rs, ok := toRuleSet(obj)
+	if !ok {
+		return
+	}
+
 	conf := p.toRuleSetConfiguration(rs)
 
 	if err := p.p.OnDeleted(conf); err != nil {
